@@ -193,7 +193,7 @@ func (e *Exchange) IsCacheable(l *log.Logger) bool {
 		return false
 	}
 
-	cacheDirectives := parseCacheControlDirectives(e.ResponseHeaders.Get("Cache-Control"))
+	cacheDirectives := parseCacheControlDirectives(headerValue(e.ResponseHeaders, "Cache-Control"))
 
 	// "o  the "no-store" cache directive (see Section 5.2) does not appear
 	//     in request or response header fields, and"
@@ -218,7 +218,7 @@ func (e *Exchange) IsCacheable(l *log.Logger) bool {
 	// "o  the response either:"
 	//
 	// "  *  contains an Expires header field (see Section 5.3), or"
-	if e.ResponseHeaders.Get("Expires") != "" {
+	if headerValue(e.ResponseHeaders, "Expires") != "" {
 		return true
 	}
 
@@ -322,7 +322,7 @@ func verifySignature(e *Exchange, verificationTime time.Time, fetch CertFetcher,
 	}
 	// Step 8: (version >= 1b3) Response headers must contain Content-Type
 	if e.Version != version.Version1b1 && e.Version != version.Version1b2 {
-		if e.ResponseHeaders.Get("Content-Type") == "" {
+		if headerValue(e.ResponseHeaders, "Content-Type") == "" {
 			return nil, nil, errors.New("verify: Content-Type response header is absent")
 		}
 	}
@@ -357,7 +357,7 @@ func verifyPayload(e *Exchange, signature *Signature) ([]byte, error) {
 	if signature.Integrity != integrityStr {
 		return nil, fmt.Errorf("verify: unsupported integrity scheme %q", signature.Integrity)
 	}
-	digest := e.ResponseHeaders.Get(enc.DigestHeaderName())
+	digest := headerValue(e.ResponseHeaders, enc.DigestHeaderName())
 	if digest == "" {
 		return nil, fmt.Errorf("verify: response header %q not present", enc.DigestHeaderName())
 	}
@@ -370,6 +370,13 @@ func verifyPayload(e *Exchange, signature *Signature) ([]byte, error) {
 		return nil, err
 	}
 	return decoded, nil
+}
+
+// headerValue returns the value of a header field the way it is serialized and
+// signed: repeated field values joined with commas (see normalizeHeaderValues),
+// so that the verdict does not depend on how the values are split in memory.
+func headerValue(h http.Header, name string) string {
+	return normalizeHeaderValues(h.Values(name))
 }
 
 func isSameOrigin(u1, u2 *url.URL) bool {
